@@ -50,6 +50,13 @@ type c12Case struct {
 	// DescHandler: the StreamDesc the client passes to NewStream carries a handler of its own (as the
 	// descriptors used by generated stubs do)
 	DescHandler bool `json:",omitempty"`
+	// StreamFlags: how the registered streaming methods are declared: 0 = bidi, 1 = client-streaming only,
+	// 2 = server-streaming only. The caller keeps using a generic bidi descriptor (as transparent proxies do):
+	// which handler runs is decided by the name alone.
+	StreamFlags int `json:",omitempty"`
+	// Empty: nothing at all is registered with the server / channel (e.g. the listener was started first): every
+	// name is unknown
+	Empty bool `json:",omitempty"`
 }
 
 type c12Creds struct{}
@@ -75,7 +82,7 @@ func (c *c12Counters) hit(name string) {
 	c.mu.Unlock()
 }
 
-func c12Desc(s c12Svc, ctr *c12Counters) *grpc.ServiceDesc {
+func c12Desc(s c12Svc, ctr *c12Counters, streamFlags int) *grpc.ServiceDesc {
 	d := &grpc.ServiceDesc{ServiceName: s.Name, HandlerType: (*svcIface)(nil)}
 	for _, m := range s.Unary {
 		full := "/" + s.Name + "/" + m
@@ -90,7 +97,7 @@ func c12Desc(s c12Svc, ctr *c12Counters) *grpc.ServiceDesc {
 	}
 	for _, m := range s.Streams {
 		full := "/" + s.Name + "/" + m
-		d.Streams = append(d.Streams, grpc.StreamDesc{StreamName: m, ClientStreams: true, ServerStreams: true, Handler: func(srv interface{}, stream grpc.ServerStream) error {
+		d.Streams = append(d.Streams, grpc.StreamDesc{StreamName: m, ClientStreams: streamFlags != 2, ServerStreams: streamFlags != 1, Handler: func(srv interface{}, stream grpc.ServerStream) error {
 			ctr.hit(full)
 			for stream.RecvMsg(new(pb.Message)) == nil {
 			}
@@ -110,7 +117,7 @@ func propC12(c c12Case) *Outcome {
 	registeredUnary, registeredStream := map[string]bool{}, map[string]bool{}
 	var descs []*grpc.ServiceDesc
 	for _, s := range c.Services {
-		d := c12Desc(s, ctr)
+		d := c12Desc(s, ctr, c.StreamFlags)
 		if c.Decorated {
 			d = grpchan.InterceptServer(d,
 				func(ctx context.Context, req interface{}, _ *grpc.UnaryServerInfo, h grpc.UnaryHandler) (interface{}, error) {
@@ -127,6 +134,13 @@ func propC12(c c12Case) *Outcome {
 		for _, m := range s.Streams {
 			registeredStream["/"+s.Name+"/"+m] = true
 		}
+	}
+	if c.Empty {
+		o.class("nothing-registered")
+		descs, registeredUnary, registeredStream = nil, map[string]bool{}, map[string]bool{}
+	}
+	if c.StreamFlags != 0 {
+		o.class("registered-streams-declared=%d", c.StreamFlags)
 	}
 	var conn grpc.ClientConnInterface
 	var closer func()
@@ -174,8 +188,8 @@ func propC12(c c12Case) *Outcome {
 			h = mux
 		} else {
 			mux := http.NewServeMux()
-			hm := newHandlerMap(descs[0], &struct{}{})
-			for _, d := range descs[1:] {
+			hm := grpchan.HandlerMap{}
+			for _, d := range descs {
 				hm.RegisterService(d, &struct{}{})
 			}
 			httpgrpc.HandleServices(mux.HandleFunc, c.Base, hm, nil, nil)
@@ -444,6 +458,8 @@ func genC12(t *rapid.T) c12Case {
 	c.Creds = rapid.IntRange(0, 4).Draw(t, "creds") == 0
 	c.Decorated = rapid.IntRange(0, 3).Draw(t, "decorated") == 0
 	c.DescHandler = rapid.Bool().Draw(t, "deschandler")
+	c.StreamFlags = rapid.SampledFrom([]int{0, 0, 1, 2}).Draw(t, "streamflags")
+	c.Empty = rapid.IntRange(0, 14).Draw(t, "empty") == 0
 	c.Late = rapid.IntRange(0, 4).Draw(t, "late") == 0
 	if c.Late || rapid.IntRange(0, 2).Draw(t, "pre") == 0 {
 		np := rapid.IntRange(1, 3).Draw(t, "npre")
@@ -470,7 +486,7 @@ func init() { registerReplay("C12", propC12) }
 
 const c12Rule = "rapid-generated: 1..3 services (1..3 unary + 1..3 streaming methods, per-method counters) on inproc, httpgrpc.Server and HandleServices x absolute base path of 0..3 segments over [A-Za-z0-9._~+:@!-] and non-ASCII, with/without trailing slash (same on both sides) x called name = registered, or a mutation (no leading slash, no slash, empty, missing part, extra segment, prefix, suffix, other service, kind mismatch, case change, names path.Clean rewrites, characters needing escaping, random); " +
 	"oracle: registered name => exactly that counter +1 and success; any other name => no counter moves, non-OK status error (Unimplemented in-process / NotFound over HTTP for well-formed unknown names), never a panic; a registered name without its leading slash may run that handler (tolerated by both transports); " +
-	"also generated since the seeded rounds: up to 3 preceding calls on the same channel (any name, any kind), registration of the last service after those calls, per-RPC credentials on the judged call, descriptions decorated by grpchan.InterceptServer, the per-method HTTP server form; " +
+	"also generated since the seeded rounds: up to 3 preceding calls on the same channel (any name, any kind), registration of the last service after those calls, per-RPC credentials on the judged call, descriptions decorated by grpchan.InterceptServer, the per-method HTTP server form, a server / channel with nothing registered at all, streaming methods declared client- or server-streaming only while the caller uses a generic bidi descriptor; " +
 	"non-trivial = unregistered/malformed name or base path other than /; distinct by case hash"
 
 // FuzzMethodName: coverage-guided search over method-name strings (any bytes) against a fixed set of
